@@ -25,3 +25,42 @@ Print Assumptions c17_old_filter_refuted.
 Example c17_accepts_something :
   location false [47;97;47;46;46;47;98;63;120;61;49] = [47;98;63;120;61;49].
 Proof. vm_compute. reflexivity. Qed.
+
+(* Federated login: whatever is posted to /auth/oauth2/login, the callback's Location is same-origin. *)
+Theorem c17_federated : forall (parse_fails : bool) (form_value : bs),
+  same_origin (federated_location parse_fails form_value) = true.
+Proof. exact federated_same_origin. Qed.
+Print Assumptions c17_federated.
+
+(* An unauthenticated request for a protected page, for every request URL (origin-form or
+   absolute-form request line), every configuration of oauth2.enabled / oauth2.force_redirect and
+   whatever the browser posts back: the redirect that ends the provider round trip is same-origin. *)
+Theorem c17_prompt_flow : forall (oauth2_enabled force_redirect parse_fails : bool) (q : prompt_req) (posted : bs),
+  same_origin (prompt_flow_location oauth2_enabled force_redirect parse_fails q posted) = true.
+Proof. exact prompt_flow_same_origin. Qed.
+Print Assumptions c17_prompt_flow.
+
+(* why the filter has to sit between the page destination and the parked value: parking
+   r.URL.String() itself is refuted by an absolute-form request line *)
+Theorem c17_unfiltered_prompt_refuted : exists q,
+  same_origin (hex_escape (redirect_emit false true (callback_target (page_destination q)))) = false.
+Proof. exact unfiltered_prompt_refuted. Qed.
+Print Assumptions c17_unfiltered_prompt_refuted.
+
+(* logoutHandler: Location "/?user=<name of the session>" is same-origin for every user name
+   without control bytes (tab, CR, LF are dropped by the browser) ... *)
+Theorem c17_logout : forall (parse_fails : bool) (user : bs),
+  has is_ctl (strip user) = false -> same_origin (logout_location parse_fails user) = true.
+Proof. exact logout_same_origin. Qed.
+Print Assumptions c17_logout.
+(* ... and the hypothesis is needed: the name is copied verbatim *)
+Theorem c17_logout_ctl_refuted : exists pf user, same_origin (logout_location pf user) = false.
+Proof. exact logout_ctl_refuted. Qed.
+Print Assumptions c17_logout_ctl_refuted.
+
+(* non-vacuity: an absolute URL naming the server's own host is not an accepted destination *)
+Example c17_own_host_url_falls_back :
+  get_login_destination [104;116;116;112;115;58;47;47;107;46;101;47;47;101;46;120;47;97] = profile.
+Proof. vm_compute. reflexivity. Qed.
+Example c17_logout_example : logout_location false [97;38;98] = [47;63;117;115;101;114;61;97;38;98].
+Proof. vm_compute. reflexivity. Qed.
